@@ -38,6 +38,9 @@ struct Block {
     token: i64,
     rf: Option<usize>, // index into the store
     no_from: bool,
+    /// the threshold grows with the fee (`min_amount: Ada(n) + fees`): the selection of the first resolve round
+    /// (fee 0) may not cover the later ones
+    fee_dep: bool,
 }
 
 /// block names that sort on both sides of each other and of the name the resolver gives the
@@ -50,6 +53,9 @@ fn program(blocks: &[Block], store: &[Utxo], collateral: Option<i64>, names: &[S
         let mut min = E::Ada(Box::new(E::Int(b.lovelace as i128)));
         if b.token > 0 {
             min = E::Add(Box::new(min), Box::new(E::AssetCall("Tok".into(), Box::new(E::Int(b.token as i128)))));
+        }
+        if b.fee_dep {
+            min = E::Add(Box::new(min), Box::new(E::Fees));
         }
         inputs.push(Input {
             name: names[i].clone(),
@@ -80,7 +86,7 @@ impl Property for C04 {
         "C04"
     }
     fn rule(&self) -> String {
-        "templates with k = 1..4 input blocks of one party whose queries overlap (same address, nested lovelace / token thresholds, single and multi-UTxO blocks, blocks naming the same reference, blocks without `from` that name a reference, optional collateral block), lowered from source text; stores of 0..60 UTxOs sized just below / at / above what the k blocks need. Oracles: (1) after tx3_resolver::inputs::resolve on the prepared template the UTxO sets bound to the non-collateral blocks are pairwise disjoint; (2) after resolve_tx the raw element list of body key 0 (independent CBOR reader) has no duplicate and at least k elements; (3) with fewer UTxOs than blocks resolution fails. Non-trivial: k >= 2 and the store holds at least one UTxO that satisfies two blocks; distinct = distinct (blocks, store).".into()
+        "templates with k = 1..4 input blocks of one party whose queries overlap (same address, nested lovelace / token thresholds, single and multi-UTxO blocks, blocks naming the same reference, blocks without `from` that name a reference, thresholds that grow with the fee next to UTxOs that meet them exactly at fee 0 - so that the rounds of resolve_tx select differently -, optional collateral block), lowered from source text; stores of 0..60 UTxOs sized just below / at / above what the k blocks need. Oracles: (1) after tx3_resolver::inputs::resolve on the prepared template the UTxO sets bound to the non-collateral blocks are pairwise disjoint; (2) after resolve_tx the raw element list of body key 0 (independent CBOR reader) has no duplicate and at least k elements; (3) with fewer UTxOs than blocks resolution fails. Non-trivial: k >= 2 and the store holds at least one UTxO that satisfies two blocks; distinct = distinct (blocks, store).".into()
     }
     fn assumptions(&self) -> Vec<String> {
         vec!["collateral may overlap a regular input (the statement allows it)".into()]
@@ -92,7 +98,7 @@ impl Property for C04 {
         }
     }
     fn required_features(&self, _tier: Tier) -> Vec<String> {
-        ["resolve/ok", "resolve/err", "resolve_tx/ok", "blocks/4", "shape/many", "shape/shared-ref", "shape/collateral", "shape/collateral-between-inputs", "shape/reference-to-wallet-utxo", "store/too-small", "store/exact"].iter().map(|s| s.to_string()).collect()
+        ["resolve/ok", "resolve/err", "resolve_tx/ok", "blocks/4", "shape/many", "shape/shared-ref", "shape/collateral", "shape/collateral-between-inputs", "shape/reference-to-wallet-utxo", "store/too-small", "store/exact", "shape/fee-dependent-threshold-met-exactly-at-fee-0"].iter().map(|s| s.to_string()).collect()
     }
     fn run_case(&self, ctx: &mut Ctx, phase: &str, idx: u64, rng: &mut Rng) {
         let k = 1 + rng.usize(4);
@@ -111,7 +117,7 @@ impl Property for C04 {
             _ => "store/roomy",
         });
         let base = rng.range(2_000_000, 5_000_000);
-        let store: Vec<Utxo> = (0..n)
+        let mut store: Vec<Utxo> = (0..n)
             .map(|i| {
                 let mut assets = CanonicalAssets::from_naked_amount((base + rng.range(-1_000_000, 3_000_000)) as i128);
                 if rng.chance(1, 3) {
@@ -136,9 +142,24 @@ impl Property for C04 {
                         }
                     }
                 };
-                Block { many, lovelace: if many { base * rng.range(1, 3) } else { base + rng.range(-1_500_000, 1_000_000) }, token: if rng.chance(1, 4) { rng.range(1, 10) } else { 0 }, rf, no_from: rf.is_some() && rng.chance(1, 3) }
+                Block { many, lovelace: if many { base * rng.range(1, 3) } else { base + rng.range(-1_500_000, 1_000_000) }, token: if rng.chance(1, 4) { rng.range(1, 10) } else { 0 }, rf, no_from: rf.is_some() && rng.chance(1, 3), fee_dep: rng.chance(1, 3) }
             })
             .collect();
+        // a fee-dependent block finds, two times in three, a UTxO that covers its threshold at fee 0 exactly (or by
+        // less than any fee): the first round picks it, a later round has to move on - to UTxOs other blocks hold
+        for b in blocks.iter().filter(|b| b.fee_dep) {
+            if n > 0 && rng.chance(2, 3) {
+                let j = rng.usize(n);
+                let lovelace = b.lovelace as i128 + *rng.pick(&[0i128, 0, 1, 1_000, 150_000]);
+                let mut assets = CanonicalAssets::from_naked_amount(lovelace);
+                if b.token > 0 || rng.chance(1, 3) {
+                    assets = assets + CanonicalAssets::from_defined_asset(&TOK_POLICY, b"TK", b.token.max(1) as i128 + rng.range(0, 3) as i128);
+                }
+                store[j].assets = assets;
+                store[j].address = owner();
+                ctx.count("shape/fee-dependent-threshold-met-exactly-at-fee-0");
+            }
+        }
         if blocks.iter().any(|b| b.many) {
             ctx.count("shape/many");
         }
